@@ -22,7 +22,7 @@ Case genRc(bool open) {
   Paths64 pp;
   int64_t W = r.r - r.l, H = r.b - r.t;
   for (int k = 0; k < n; ++k) {
-    int kind = (int)G::range(0, 6);
+    int kind = (int)G::range(0, 7);
     Path64 p;
     int nv = (int)G::range(open ? 2 : 3, 10);
     int64_t ext = std::min<int64_t>((int64_t(1) << 40) - std::max(std::abs(r.l), std::abs(r.r)) - 1, std::max<int64_t>(W, H) + 5);
@@ -35,6 +35,18 @@ Case genRc(bool open) {
         int64_t d = 1 + G::range(0, ext - 1 > 0 ? ext - 1 : 0) / 2 + t;
         p.emplace_back(r.l - d, r.t - d); p.emplace_back(r.r + d, r.t - d); p.emplace_back(r.r + d, r.b + d); p.emplace_back(r.l - d, r.b + d);
       }
+      if (G::coin()) std::reverse(p.begin(), p.end());
+    } else if (kind == 7 && !open) {     // U-shaped frame hugging three sides of the rectangle from outside (edges ON the sides)
+      int64_t a = 1 + G::range(0, 5), c2 = 1 + G::range(0, 5), d2 = 1 + G::range(0, 5);
+      int64_t e1 = G::range(0, 3), e2 = G::range(0, 3), e3 = G::range(-2, 3), e4 = G::range(-2, 3);
+      // open at the bottom side; then rotated / mirrored
+      p = {Point64(r.l - a, r.b + e1), Point64(r.l - a, r.t - d2), Point64(r.r + c2, r.t - d2), Point64(r.r + c2, r.b + e2),
+           Point64(r.r, r.b + e3), Point64(r.r, r.t), Point64(r.l, r.t), Point64(r.l, r.b + e4)};
+      int rot = (int)G::range(0, 3);
+      int64_t cx2 = r.l + r.r, cy2 = r.t + r.b;   // doubled centre
+      if (rot && (r.r - r.l) == (r.b - r.t)) {      // rotations keep the rectangle only when it is a square: else mirror
+        for (auto& q : p) for (int k2 = 0; k2 < rot; ++k2) { int64_t dx = 2 * q.x - cx2, dy = 2 * q.y - cy2; q = Point64((cx2 - dy) / 2, (cy2 + dx) / 2); }
+      } else if (rot == 1) for (auto& q : p) q.y = r.t + r.b - q.y;     // open at the top instead
       if (G::coin()) std::reverse(p.begin(), p.end());
     } else if (kind == 2) {     // entirely outside (one side)
       for (int v = 0; v < nv; ++v) p.emplace_back(r.r + 1 + G::range(0, ext), G::range(r.t - ext, r.b + ext));
